@@ -29,9 +29,9 @@ func (c08) Assumptions() []string {
 
 func (c08) Batches(tier string, seed uint64) []core.Batch {
 	var b []core.Batch
-	b = append(b, spread("para", 8, tierN(tier, 1200, 12000))...)
-	b = append(b, spread("cycle", 8, tierN(tier, 300, 3000))...)
-	b = append(b, spread("encoder", 4, tierN(tier, 250, 2500))...)
+	b = append(b, spread("para", 8, tierN(tier, 5000, 25000))...)
+	b = append(b, spread("cycle", 8, tierN(tier, 1500, 8000))...)
+	b = append(b, spread("encoder", 4, tierN(tier, 1200, 6000))...)
 	return b
 }
 
